@@ -76,6 +76,15 @@ def gen_plan(rng, i: int, tier: str) -> dict:
     return plan
 
 
+def _thread_policy(r) -> dict:
+    k = r.random()
+    if k < 0.35:
+        return {"mode": "prob", "p": r.choice((0.003, 0.03, 0.3))}
+    if k < 0.7:
+        return {"mode": "points", "n": r.choice((1, 2, 4)), "horizon": r.choice((500, 5000, 30000))}
+    return {"mode": "marks", "q": r.choice((0.2, 0.5, 0.9)), "p": r.choice((0.0, 0.001))}
+
+
 def _transcript(tr: P.Trace, with_tokens: bool, per_conn: bool = False):
     out = []
     conns: t.Dict[t.Any, list] = {}
@@ -271,7 +280,7 @@ class C17(common.Check):
             # the same operations once more as caller threads of one process using the sync API (fresh cache each): simworld.threads
             # decides every pre-emption at line events inside dpapi_ng; per-connection conversations must equal the sequential ones
             r = random.Random(case["seed"] ^ 0x7EAD)
-            pol = {"mode": "prob", "p": r.choice((0.003, 0.03, 0.3))} if r.random() < 0.5 else {"mode": "points", "n": r.choice((1, 2, 4)), "horizon": r.choice((500, 5000, 30000))}
+            pol = _thread_policy(r)
             plan = dict(case, ops=[dict(o, fl="thread", group=1) if "fl" in o else o for o in case["ops"]], threads=case.get("threads") or pol, _concurrent_now=True)
             tr = P.execute_plan(plan)
             traces["thread"] = tr
@@ -336,7 +345,7 @@ class C17(common.Check):
             tplan = dict(case, ops=[dict(o, fl="thread", group=1) if "fl" in o else o for o in case["ops"]])
             if not case.get("thread_scripts") and not case.get("threads"):
                 r = random.Random(case["seed"] ^ 0x7EAD)
-                tplan["threads"] = {"mode": "prob", "p": r.choice((0.003, 0.03, 0.3))} if r.random() < 0.5 else {"mode": "points", "n": r.choice((1, 2, 4)), "horizon": r.choice((500, 5000, 30000))}
+                tplan["threads"] = _thread_policy(r)
             for cand in P.thread_shrinks(tplan):
                 yield dict(case, thread_scripts=cand["thread_scripts"])
         dc = case["dc"]
